@@ -73,6 +73,8 @@ class Ctx:
         self.viol_total = 0
         self.notes = []
         self.replaying = False
+        self._mem = []
+        self._mem_seen = 0
 
     def count(self, key, n=1):
         self.counters[key] += n
@@ -104,6 +106,38 @@ class Ctx:
             self.violations.append({"mechanism": mechanism, "case": case, "detail": detail})
         if self.replaying:
             print("  still violates: %s\n    %s" % (mechanism, json.dumps(detail, ensure_ascii=True, default=repr)[:2000]))
+
+    def remember(self, label, fn, limit=300):
+        """History-independence monitor: `fn()` recomputes a deterministic digest of one case's
+        outcome from scratch.  A sample of cases is kept and recomputed in reverse order at the end
+        of the shard (after everything else has run in this process); a different digest means the
+        outcome depends on what ran before."""
+        self._mem_seen += 1
+        if len(self._mem) < limit:
+            slot = len(self._mem)
+            self._mem.append(None)
+        elif self.rng.random() < limit / float(self._mem_seen):
+            slot = self.rng.randrange(limit)
+        else:
+            return
+        try:
+            self._mem[slot] = (label, fn, fn())
+        except Exception as e:  # noqa: BLE001
+            self._mem[slot] = (label, fn, "raised:" + type(e).__name__)
+
+    def recheck(self):
+        for ent in reversed(self._mem):
+            if ent is None:
+                continue
+            label, fn, first = ent
+            try:
+                again = fn()
+            except Exception as e:  # noqa: BLE001
+                again = "raised:" + type(e).__name__
+            self.counters["history_rechecks"] += 1
+            if again != first:
+                self.violation("outcome-depends-on-call-history:%s" % label, {"history": True, "spec": self.spec}, {"first": repr(first)[:400], "recomputed_after_the_rest_of_the_shard": repr(again)[:400]})
+                break
 
     def result(self):
         return {
@@ -140,6 +174,7 @@ def run_shard_main(prop, tier, seed, spec_file, out_file):
                 replay_witnesses(prop, mod, ctx)
             else:
                 mod.run(spec, ctx)
+                ctx.recheck()
         finally:
             cov = mon.stop()
         res = ctx.result()
@@ -308,7 +343,15 @@ def main(argv=None):
         ctx = Ctx(prop, tier, seed, -1, {})
         ctx.replaying = True
         print("replaying %s mechanism=%s" % (args.replay, rec.get("mechanism")))
-        mod.replay(rec["case"], ctx)
+        if isinstance(rec["case"], dict) and rec["case"].get("history"):
+            # a history-dependent outcome: re-run the shard that observed it, then recompute
+            ctx.spec = rec["case"]["spec"]
+            ctx.shard = ctx.spec.get("shard", 0)
+            ctx.rng = random.Random(derive_seed(rec.get("seed", seed), prop, ctx.shard))
+            mod.run(ctx.spec, ctx)
+            ctx.recheck()
+        else:
+            mod.replay(rec["case"], ctx)
         if ctx.viol_total:
             print("VIOLATION property=%s replay=%s" % (prop, args.replay))
             return 1
